@@ -7,6 +7,45 @@ _NOTE = ('Trusted: TLC 1.8 + CommunityModules Json/IOUtils; numpy/astropy/scipy 
          'TLC-emitted behaviour through the public API and by TLC-validating recorded API traces.')
 
 CHECKS = {
+    'C01': {
+        'text': 'FitKernel.tla writes the aperture-independent fit in exact rational arithmetic on a quarter-dex lattice (2x2 normal equations, '
+                'clamp, re-scale, chi^2 with limit penalties).  TLC checks on every enumerated source (all 6^3 flag vectors x data values x weights, '
+                '3 model grids incl. exact ties, 3 extinction patterns, 5 A_V ranges incl. lo==hi and clamping) that the algorithm layer satisfies the '
+                'KKT conditions of the constrained least-squares problem, beats integer competitors around the optimum, and that chi^2 is the minimum plus '
+                'penalties.  A seed-chosen 1/8 (thorough 1/16 of a 25x larger space) of those behaviours is replayed through real Fitter.fit on real packages and every '
+                "model's (A_V, scale, chi^2) compared by name; random wider sources/grids (2-4 bands, 1-8 models, +-12 dex) are recorded from the code "
+                'and validated by Trace_FitKernel.',
+        'ref': 'DESIGN.md section 6 C01',
+        'note': _NOTE + ' Inputs are lattice points (integers in quarter dex, W in {1,4,16}, K_j in 0..4); nothing is claimed about rounding-error growth off the lattice.',
+        'technique': 'TLA+ spec (exact rational kernel) + TLC exhaustive check of KKT optimality; spec->code replay; code->spec trace validation',
+    },
+    'C03': {
+        'text': 'The same kernel with the flag semantics as relational invariants checked by TLC for all 6^3 flag vectors (x values x qualities) and '
+                'PenaltyOnlyOnForbiddenSide for all 6^4 and 6^5 flag vectors: ignored bands are irrelevant, limits never enter the LSQ, zero confidence == unused, '
+                'certain limits give Big(n) chi^2, flag 4 == flag 1.  Replay: each sampled behaviour is run on the real fitter as is, with each junk token '
+                '(-999, 0, 1e-30, 1e30) in the ignored bands, with flags 0<->9 swapped, and with flags 1<->4 swapped (documented transform); all variants must agree with each other '
+                'and with the spec rows.',
+        'ref': 'DESIGN.md section 6 C03',
+        'note': _NOTE + ' A limit met exactly by the best fit (spec boundary flag) admits either chi^2.',
+        'technique': 'TLA+ spec + TLC relational invariants over all flag vectors; spec->code replay with metamorphic variants; trace validation',
+    },
+    'C04': {
+        'text': 'TLC checks that a ranking (permutation non-decreasing in chi^2 under Fin < Big(n)) exists and that the predicted log fluxes are model + A_V k - 2 scale for '
+                'every enumerated source/grid (incl. duplicated and mirror-image models: exact ties; certain limits: Big chi^2).  Replay compares the whole FitInfo: every model exactly once, '
+                'observed chi^2 non-decreasing, and per row (matched by model name) model_id, A_V, scale, chi^2 and every predicted flux.',
+        'ref': 'DESIGN.md section 6 C04',
+        'note': _NOTE + ' Tie order is free.  Infinite chi^2 from remove_resolved is not produced through the fitter here.',
+        'technique': 'TLA+ spec + TLC; spec->code replay of whole FitInfo rows; trace validation (rank, ids, predicted fluxes)',
+    },
+    'C11': {
+        'text': 'TLC checks the kernel invariances PermuteBands (all 6 permutations of 3 bands) and ScaleFlux (4 constants) on every enumerated source.  Replay: all sampled behaviours of a '
+                'configuration go through ONE real fitter in seed-shuffled order (history freedom; source pickled before/after), then again on packages with bands and models permuted and all '
+                'fluxes scaled by 10^(c/4), compared to the spec rows (scale shifted by -c/8).  Trace_FitKernel validates recorded histories of up to 6 interleaved fits per fitter against '
+                'a spec state that contains only the fitter.',
+        'ref': 'DESIGN.md section 6 C11',
+        'note': _NOTE,
+        'technique': 'TLA+ spec + TLC invariance theorems; spec->code replay on permuted/scaled worlds and shared-fitter histories; trace validation',
+    },
     'C05': {
         'text': 'Select.tla states keep() over abstract floats (Fin/Big/Inf/NaN with IEEE rules).  TLC checks exhaustively, for every ranked '
                 'chi^2 vector of length 0..5 (thorough 0..6) over an 8-value alphabet with ties, infinity and NaN, n_data 0..3, 44 selectors '
